@@ -47,6 +47,8 @@ var log *zap.Logger
 type Auth struct {
 	config *Config
 	pwdDir string
+	// pwdFile is the path of the password file as resolved by Load.
+	pwdFile string
 	// gard indexer
 	mu sync.RWMutex
 	// store username/password
@@ -133,6 +135,8 @@ func (a *Auth) Load(service server.Server) error {
 	} else {
 		pwdFile = path.Join(a.pwdDir, a.config.PasswordFile)
 	}
+	// saveFileHandler must write the file that is read here
+	a.pwdFile = pwdFile
 	f, err := os.OpenFile(pwdFile, os.O_CREATE|os.O_RDONLY, 0666)
 	if err != nil {
 		return err
